@@ -122,12 +122,16 @@ impl InputBuffer {
     /// Moves InputBuffer into RW state, making it possible to perform edits on it
     pub fn start_build(&mut self) -> SudachiResult<()> {
         if self.original.len() > MAX_LENGTH {
+            #[cfg(sudachi_verif)]
+            crate::verif::emit(|| serde_json::json!({"ev": "start_build", "len": self.original.len(), "res": "toolong"}));
             return Err(SudachiError::InputTooLong(self.original.len(), MAX_LENGTH));
         }
         debug_assert_eq!(self.state, BufferState::Clean);
         self.state = BufferState::RW;
         self.modified.push_str(&self.original);
         self.m2o.extend(0..self.modified.len() + 1);
+        #[cfg(sudachi_verif)]
+        crate::verif::emit(|| serde_json::json!({"ev": "start_build", "len": self.original.len(), "res": "ok"}));
         Ok(())
     }
 
@@ -225,8 +229,12 @@ impl InputBuffer {
 
     fn commit(&mut self) -> SudachiResult<()> {
         if self.replaces.is_empty() {
+            #[cfg(sudachi_verif)]
+            crate::verif::emit(|| serde_json::json!({"ev": "commit", "ops": [], "res": "ok", "newlen": self.modified.len()}));
             return Ok(());
         }
+        #[cfg(sudachi_verif)]
+        let verif_ops = if crate::verif::enabled() { edit::verif_ops(&self.replaces) } else { Vec::new() };
 
         self.mod_chars.clear();
         self.modified_2.clear();
@@ -240,15 +248,26 @@ impl InputBuffer {
             &mut self.replaces,
         );
         if sz > REALLY_MAX_LENGTH {
+            #[cfg(sudachi_verif)]
+            crate::verif::emit(|| serde_json::json!({"ev": "commit", "ops": verif_ops, "res": "toolong", "newlen": sz}));
             // super improbable, but still
             return Err(SudachiError::InputTooLong(sz, REALLY_MAX_LENGTH));
         }
         std::mem::swap(&mut self.modified, &mut self.modified_2);
         std::mem::swap(&mut self.m2o, &mut self.m2o_2);
+        #[cfg(sudachi_verif)]
+        crate::verif::emit(|| {
+            let mut map: Vec<usize> = self.modified.char_indices().map(|(b, _)| self.m2o[b]).collect();
+            map.push(self.m2o[self.modified.len()]);
+            serde_json::json!({"ev": "commit", "ops": verif_ops, "res": "ok", "newlen": sz,
+                               "mod": crate::verif::text_cps(&self.modified), "m2o": map, "m2o_len": self.m2o.len()})
+        });
         Ok(())
     }
 
     fn rollback(&mut self) {
+        #[cfg(sudachi_verif)]
+        crate::verif::emit(|| serde_json::json!({"ev": "rollback"}));
         self.replaces.clear()
     }
 
